@@ -319,7 +319,7 @@ theorem progress_up {s0 s : St} {ls : List Label} (h0 : s0.initial) (hl : ∀ l 
     | connWait => left; simp [step?, actStep, ht, hp, hact, hup]
     | connCheck => left; simp [step?, actStep, ht, hp, hact, hup]
     | flush => left; simp [step?, actStep, ht, hp, hact]
-    | flush1 => left; simp only [step?, actStep, ht, hp, hact]; split <;> rfl
+    | flush1 => left; simp [step?, actStep, ht, hp, hact]
     | poll => left; simp only [step?, actStep, ht, hp, hact]; split <;> rfl
     | sleep => left; simp [step?, actStep, ht, hp, hact]
     | resume => left; simp [step?, actStep, ht, hp, hact]
